@@ -11,11 +11,13 @@ MANIFEST = dict(
     level="proof",
     text=("Lean 4 theorems over an executable model of iowow's JSON Patch (pointer decoding, look-up by cached array index, "
           "detach/insert, the nine operations, patch-text decoding, the decode-patch-encode-swap wrapper of the binary form): "
-          "the cached indexes stay equal to positions after every operation, every operation sequence RFC 6902 accepts yields "
-          "the RFC result, every sequence it rejects is rejected, and a rejected patch leaves the binary document unchanged; "
-          "the model is tied to the code by a differential run of jbn_patch / jbn_patch_auto / jbl_patch / jbl_patch_from_json "
-          "against the compiled Lean definitions on generated documents x patch programs, with an independent python RFC 6902 "
-          "implementation as oracle"),
+          "the cached indexes equal positions after every operation of any kind (klidx_inv); for every document with distinct "
+          "member names and every sequence of add/remove/replace/move/copy/test, RFC 6902 accepts => the model returns exactly "
+          "the RFC result, RFC 6902 rejects => the model reports an error (hypotheses exclude only the two listed dialect "
+          "findings: path '/', '-' outside insertions); the sorted member comparison behind test = RFC JSON equality; a failed "
+          "patch leaves the binary document unchanged for every patch document; the model is tied to the code by a "
+          "differential run of jbn_patch / jbn_patch_auto / jbl_patch / jbl_patch_from_json against the compiled Lean "
+          "definitions on generated documents x patch programs, with an independent python RFC 6902 implementation as oracle"),
     note=("trusted: Lean kernel, harness/generator, python oracle, gcc+ASan/UBSan; modelled not verified: the C control flow of "
           "the functions named; doubles compared by bit pattern (the code compares printed texts); documents have unique keys "
           "(ignoring ASCII case), no NUL bytes; binn encode/decode is taken as the identity on such documents (C14)"),
